@@ -21,10 +21,10 @@ META = dict(
                'is_fixed / fixed_value / des_vars / _get_all_des_var_values',
                'then, on each accepting path, natively: get_all_discrete_x, get_graph, get_n_valid_designs, '
                'HierarchyAnalyzer.get_available_combinations_mask / get_graph / get_opt_idx'],
-    bounds=dict(value='any integer (discrete) / any real (continuous)', templates='hand-written DSG templates (pools/dsg.py), '
+    bounds=dict(value='any integer (discrete) / any real (continuous)', templates='hand-written DSG templates (pools/dsg.py) and seeded random graphs without connection choices / choice constraints (pools/dsg_random.py: 10 per run in the quick tier, 60 in the thorough tier), '
                 '<= 6 design variables, <= 64 valid designs', sequences='fix; fix,decode*,free; fix,free,fix,free; fix v1,fix v2,free (same variable); fix a,fix b,free,free in '
                 'both orders (<= 4 operations)'),
-    outside=['graphs other than the templates', 'the fast selection-choice encoder on templates other than the eight in FAST_TEMPLATES (there the designs of a problem are the decodes of all declared vectors, it does not enumerate)', 'statistics other than n_valid / n_declared / n_discrete of the two total rows',
+    outside=['graphs other than the templates', 'the fast selection-choice encoder on templates other than the nine in FAST_TEMPLATES and a few seeded random graphs (there the designs of a problem are the decodes of all declared vectors, it does not enumerate)', 'statistics other than n_valid / n_declared / n_discrete of the two total rows',
              'continuous variables: accept/reject for all reals and disappearance from des_vars are decided; decodes after '
              'fixing use one representative value (float() concretises it)'],
     stubs=['EncoderSelector.get_best_assignment_manager -> default lazy encoder', 'formatting of the ValueError message in '
@@ -37,10 +37,15 @@ INSTANCE_CAP_S = 300
 
 def instances(tier, seed):
     out = []
-    names = ['two_indep', 'nested', 'nested3', 'incompat', 'incompat3', 'dv', 'dv_linked', 'sel_linked', 'sel_forced_linked', 'dv_or_existence', 'conn_cond', 'conn_dv', 'conn_opt_src']
+    names = ['two_indep', 'nested', 'nested3', 'incompat', 'incompat3', 'shared_option', 'dv', 'dv_linked', 'sel_linked', 'sel_forced_linked', 'dv_or_existence', 'conn_cond', 'conn_dv', 'conn_opt_src']
     if tier == 'thorough':
         names = list(dsg_pool.TEMPLATES)
     names = names+[f'fast:{n}' for n in FAST_TEMPLATES]
+    # seeded random graphs (pools/dsg_random.py): selection choices, shared options, OR-existence, incompatibilities,
+    # design-variable nodes; a different batch per VERIF_SEED
+    n_rnd, n_rnd_fast = (10, 4) if tier == 'quick' else (60, 20)
+    rnd_seeds = list(range(1000*seed, 1000*seed+n_rnd))
+    names = names+[f'rnd{s}' for s in rnd_seeds]+[f'fast:rnd{s}' for s in rnd_seeds[:n_rnd_fast]]
     for name in names:
         gp, g, info = _mk(name)
         n = len(gp.all_des_vars)
@@ -62,7 +67,7 @@ def _mk(name):
     return dsg_pool.make_processor(name)
 
 
-FAST_TEMPLATES = ['two_indep', 'nested', 'nested3', 'incompat', 'incompat3', 'dv', 'dv_or_existence', 'forced']
+FAST_TEMPLATES = ['two_indep', 'nested', 'nested3', 'incompat', 'incompat3', 'shared_option', 'dv', 'dv_or_existence', 'forced']
 
 
 def _viol(res, check, sig, config, inputs, observed, expected):
